@@ -5,8 +5,9 @@ T (translation validation): every merge of generated indexes is dumped (sources 
    per document id, stored fields, fast values, field-norm ids, token lists with frequencies and
    positions recovered by inverting the postings; per field the term list with doc freqs) and TLC
    checks result = MergeSem(sources) - source order, or sort order for a sorted index.
-R: the merge thread is parked by the SimDirectory gate at its first file creation while the user
-   thread commits deletes (end_merge reconciliation), rolls back, deletes everything.
+R: the merge thread is parked by the SimDirectory gate at its first file creation (or before it
+   opens its sources) while the user thread commits deletes (end_merge reconciliation), rolls
+   back, deletes everything; a merge started on valid sources that nothing cancels must succeed.
 T: random histories with merge policies judged by the sequential oracle (content never changes)."""
 import json
 
